@@ -175,7 +175,59 @@ def work_pairs(chunk):
                 vio.append({'scope': P, 'kind': 'nested-unchecked-not-exempt', 'key': [P, q, f], 'observed': ctrl.as_json()})
             else:
                 oc['parent_unserialisable_anyway'] += 1
+            continue
+        # (iii) three levels: checked complete P > UNCHECKED q > CHECKED but incomplete r (lacking its required children
+        # or attributes; r alone refuses its own to_string): the setting is per element, so r is still checked when the
+        # tree is serialised from the root - P.to_string() must refuse as r.to_string() does
+        for r in incomplete_children(tq)[:2]:
+            def tree():
+                pp = impl.fresh(P, check=True)
+                rr = impl.class_for(r)(impl.valid_value(impl.class_for(r)), xsd_check=True)
+                done = False
+                for a in w:
+                    if a == q and not done:
+                        ch = impl.child(q, 'opaque')
+                        ch.add_child(rr)
+                        done = True
+                    else:
+                        ch = impl.minimal(a)
+                    pp.add_child(ch)
+                return pp, rr
+            t = impl.call(tree)
+            if not t.ok:
+                continue
+            pp, rr = t.value
+            if impl.call(rr.to_string).ok:
+                continue        # r is not incomplete after all
+            oc['three_level_probes'] += 1
+            o = impl.call(pp.to_string)
+            if o.ok:
+                vio.append({'scope': P, 'kind': 'nested-checked-not-enforced',
+                            'key': [P, q, r, 'root-serialises-incomplete-checked-descendant-below-unchecked'],
+                            'observed': o.value[:300]})
     return vio, dict(oc)
+
+
+_incomplete = {}
+
+
+def incomplete_children(tq):
+    """child symbols of type tq whose own type makes a bare instance incomplete: a required attribute or a content
+    model that does not accept the empty sequence"""
+    if tq not in _incomplete:
+        out = []
+        for r in nfa(tq).alphabet:
+            if len(R.partwise_elements()[r]) != 1:
+                continue
+            kind, tr = R.element_type(r)
+            if kind != 'complex':
+                continue
+            req = any(rq and ':' not in an for (an, at, rq) in R.ctype_attrs(tr))
+            nonempty = R.content_model(tr) is not None and not nfa(tr).accepts(())
+            if req or nonempty:
+                out.append(r)
+        _incomplete[tq] = out
+    return _incomplete[tq]
 
 
 def work_switched(T):
@@ -323,7 +375,7 @@ def run(tier):
         nsw += n
     if oc['ok'] == 0:
         guards.append('no word passed in part (1)')
-    if pc['nested_checked_probes'] == 0 or pc['nested_unchecked_probes'] == 0:
+    if pc['nested_checked_probes'] == 0 or pc['nested_unchecked_probes'] == 0 or pc['three_level_probes'] == 0:
         guards.append('no nested probe in part (2)')
     run_.assumptions += ['alphabet reduction R1 plus one foreign element per type', 'opaque leaf children']
     cov = {'states': nw, 'transitions': nw + sum(pc.values()), 'traces_validated_against_impl': nw + len(ps),
